@@ -13,7 +13,8 @@ Scratch: /var/tmp/confirm (worktree), /var/tmp/confirm-target; `--clean` removes
 import json, os, re, subprocess, sys, time
 
 ROOT = os.path.dirname(os.path.dirname(os.path.abspath(__file__)))
-WT, T = "/var/tmp/confirm", "/var/tmp/confirm-target"
+_slot = next((a.split("=", 1)[1] for a in sys.argv if a.startswith("--slot=")), "")
+WT, T = "/var/tmp/confirm" + _slot, "/var/tmp/confirm-target" + _slot
 ENV = dict(os.environ, CARGO_TARGET_DIR=T, CARGO_NET_OFFLINE="true")
 ENV.pop("RUSTFLAGS", None)
 
@@ -128,6 +129,8 @@ def main():
         return
     for sid in [a for a in sys.argv[1:] if not a.startswith("--")]:
         d = os.path.join(ROOT, "seeded", sid)
+        if os.path.exists(os.path.join(d, "confirm.json")) and "--redo" not in sys.argv:
+            continue
         meta = json.load(open(os.path.join(d, "meta.json")))
         res = {"repo_head": sh("git -C /repo rev-parse --short HEAD")[1].strip(), "when": time.strftime("%F %T")}
         reset()
